@@ -228,7 +228,7 @@ const rule = "one API per case: 1-4 operations (GET/HEAD/POST/PUT/DELETE) with o
 // Props lists the generated checks of C08.
 func Props() []kit.Runner {
 	return []kit.Runner{
-		kit.Prop[Case]{ID: "C08", Name: "respond", Rule: rule, Quick: 1200, Thorough: 8000,
+		kit.Prop[Case]{ID: "C08", Name: "respond", Rule: rule, Quick: 1200, Thorough: 5000,
 			Gen: Gen, Check: Check, Classify: Classify, SampleLimit: 2500},
 	}
 }
